@@ -78,24 +78,64 @@ def run(index: RepoIndex, rep) -> None:
                           (OBSR, 'make_observation_representation',
                            {'grid', 'agent_id_grid', 'item'})):
         f = index.func(rel, fn)
-        dicts = [n for n in ast.walk(f.node) if isinstance(n, ast.Dict)]
-        if len(dicts) < 3:
-            raise AnalysisError(f'{fn}: expected three representation dictionaries')
-        for d in dicts:
+        kind = 'State' if rel == STATE else 'Observation'
+        want_cls = {'grid': f'Grid{kind}Representation',
+                    'agent_id_grid': f'AgentIDGrid{kind}Representation',
+                    'agent': f'Agent{kind}Representation',
+                    'item': f'Item{kind}Representation'}
+        per_name = {'default': f'DefaultGridObject{kind}Representation',
+                    'no-overlap': f'NoOverlapGridObject{kind}Representation',
+                    'compact': f'CompactGridObject{kind}Representation'}
+        from ..guards import expand_under, strip_iter, truth_under
+        w = walk_function(f.node)
+        np_, sp_ = [a.arg for a in f.node.args.args[:2]]
+        n_dicts = 0
+        for nm, gcls in sorted(per_name.items()):
+            def atom_truth(e, nm=nm):
+                if isinstance(e, ast.Compare) and len(e.ops) == 1 and \
+                        isinstance(e.ops[0], (ast.Eq, ast.NotEq)):
+                    l, r = e.left, e.comparators[0]
+                    for a, b in ((l, r), (r, l)):
+                        if src(a) == np_ and isinstance(b, ast.Constant):
+                            return (b.value == nm) == isinstance(e.ops[0], ast.Eq)
+                return None
+            outcome = None
+            for e in w.events:
+                if e.kind in ('return', 'raise') and \
+                        truth_under(strip_iter(e.guard), atom_truth) is True:
+                    outcome = e
+                    break
+            d = None
+            if outcome is not None and outcome.kind == 'return' and outcome.value is not None:
+                v = expand_under(w, outcome.value, atom_truth)
+                if isinstance(v, ast.Call) and src(v.func) == f'Dict{kind}Representation' and \
+                        len(v.args) == 2 and src(v.args[0]) == sp_ and \
+                        isinstance(v.args[1], ast.Dict):
+                    d = v.args[1]
+            if d is None:
+                rep.violation('C16.R2', rel, fn, f.node.lineno, f'name={nm!r}',
+                              f'{fn}({nm!r}, space) does not return Dict{kind}Representation('
+                              f'space, {{...}})')
+                continue
+            n_dicts += 1
             keys = {k.value for k in d.keys if isinstance(k, ast.Constant)}
-            cls = {k.value: src(v.func) for k, v in zip(d.keys, d.values)
-                   if isinstance(k, ast.Constant) and isinstance(v, ast.Call)}
-            kind = 'State' if rel == STATE else 'Observation'
-            want_cls = {'grid': f'Grid{kind}Representation',
-                        'agent_id_grid': f'AgentIDGrid{kind}Representation',
-                        'agent': f'Agent{kind}Representation',
-                        'item': f'Item{kind}Representation'}
+            cls = {k.value: src(v_.func) for k, v_ in zip(d.keys, d.values)
+                   if isinstance(k, ast.Constant) and isinstance(v_, ast.Call)}
+            args = {k.value: [src(a) for a in v_.args] for k, v_ in zip(d.keys, d.values)
+                    if isinstance(k, ast.Constant) and isinstance(v_, ast.Call)}
             ok = need <= keys and all(cls.get(k) == want_cls[k] for k in need)
             rep.check(ok, 'C16.R2', rel, fn, d.lineno, str(sorted(keys)),
-                      f'{fn}: keys {sorted(keys)} (classes {cls}) do not cover cells, agent '
-                      f'position{", orientation" if "agent" in need else ""} and held item: two '
-                      f'different {kind.lower()}s could have equal representations',
-                      f'{fn} keys')
+                      f'{fn}({nm!r}): keys {sorted(keys)} (classes {cls}) do not cover cells, '
+                      f'agent position{", orientation" if "agent" in need else ""} and held '
+                      f'item: two different {kind.lower()}s could have equal representations',
+                      f'{fn} keys {nm}')
+            okg = all(args.get(k) == [sp_, f'{gcls}({sp_})'] for k in ('grid', 'item'))
+            rep.check(okg, 'C16.R2', rel, fn, d.lineno,
+                      f'{nm}: {args.get("grid")}, {args.get("item")}',
+                      f'{fn}({nm!r}): cells and held item are not encoded by {gcls} over the '
+                      f'given space', f'{fn} per-object encoding {nm}')
+        if n_dicts < 3:
+            raise AnalysisError(f'{fn}: expected three representation dictionaries')
 
     # ---- R3 (shared with C15.R3)
     shapes_dtypes(index, rep, 'C16.R3', 'C16.R3')
